@@ -126,3 +126,8 @@ _add_family(globals(), _np_fam, 'noprec', _np_fam.oracle, share=0.1)
 # polled lives in a worker (the scheduler asks the worker, not the wrapper's static parameter)
 from harness import adaptpar as _ap                     # noqa: E402
 _add_family(globals(), _ap, 'adaptpar', _ap.oracle, share=0.01)
+
+
+# a process replaced in place while its update is in flight: the newcomer's events are its own (fix F51)
+from harness import deadwriter as _dw                   # noqa: E402
+_add_family(globals(), _dw, 'deadwriter', _dw.oracle, share=0.02)
